@@ -726,6 +726,10 @@ def main():
             what = b["what"].split(":")[0]
             run.violation(what, b, mech={"what": what, "variant": b.get("variant"), "error": b.get("error", "")})
     run.note("single_env_drops", single)
+    # ---- history workloads: objects used, modified through their setters / re-used, used again (vf/history.py) ----
+    from vf.sandbox import run_extra as _run_extra
+    from vf.common import seed as _seed, tier as _tier
+    _run_extra(run, "vf.history:h_cg_reuse", [{"seed": _seed(), "idx": _i} for _i in range(2400 if _tier() == "thorough" else 240)], cpu_budget=60, kind_prefix="history: ")
     return run.finish()
 
 
